@@ -141,7 +141,7 @@ theorem natToDec_tok (n : Nat) : TokOK (natToDec n) := ⟨(natToDec_token n).1, 
 
 theorem mkG_good (st : Style) (hl : Lossless st) (zo : Name) (rel gfix : Bool) (dup : Bool) (ow : List Nat) (n m : Name)
     (ttl ty : Nat) (rr : RR) (rtext : List Nat) (h : RecOK st zo rel gfix ow n m ttl ty rr rtext) :
-    (mkG st dup ow n m ttl ty rr rtext).Good zo rel gfix := by
+    (mkG st dup ow n m ttl ty rr rtext).Good zo zo rel gfix := by
   obtain ⟨ck, cv, cn⟩ := classTok_ok st
   have hlead : SepOK (if dup then dupField st else 32 :: padR (ow ++ [32]) st.nameJust) := by
     cases dup
@@ -245,8 +245,8 @@ theorem linesOK_rrs (st : Style) (hl : Lossless st) (zo : Name) (rel gfix : Bool
     (ttl ty : Nat) (rtextOf : RR → List Nat) (d : Bool) (rr : RR) (rrs : List RR) (ln : Option Name) (tail : List GLine)
     (hrec : ∀ x ∈ rr :: rrs, RecOK st zo rel gfix ow n m ttl ty x (rtextOf x))
     (hd : d = true → ln = some n)
-    (htail : LinesOK zo rel gfix (some n) st.defaultTTL tail) :
-    LinesOK zo rel gfix ln st.defaultTTL (rrsG st ow n m ttl ty rtextOf d (rr :: rrs) ++ tail) := by
+    (htail : LinesOK zo zo rel gfix (some n) st.defaultTTL tail) :
+    LinesOK zo zo rel gfix ln st.defaultTTL (rrsG st ow n m ttl ty rtextOf d (rr :: rrs) ++ tail) := by
   induction rrs generalizing d rr ln with
   | nil =>
     obtain ⟨f1, f2, f3, _, f5⟩ := mkG_fields st d ow n m ttl ty rr (rtextOf rr)
@@ -269,8 +269,8 @@ theorem linesOK_node (st : Style) (hl : Lossless st) (zo : Name) (rel gfix : Boo
     (hnd : nd ≠ []) (hne : ∀ rds ∈ nd, rds.rrs ≠ [])
     (hrec : ∀ rds ∈ nd, ∀ x ∈ rds.rrs, RecOK st zo rel gfix ow n m rds.ttl rds.rdtype x (rtextOf x))
     (hd : (st.dedup && f) = true → ln = some n)
-    (htail : LinesOK zo rel gfix (some n) st.defaultTTL tail) :
-    LinesOK zo rel gfix ln st.defaultTTL (nodeG st ow n m rtextOf f nd ++ tail) := by
+    (htail : LinesOK zo zo rel gfix (some n) st.defaultTTL tail) :
+    LinesOK zo zo rel gfix ln st.defaultTTL (nodeG st ow n m rtextOf f nd ++ tail) := by
   induction nd generalizing f ln with
   | nil => exact absurd rfl hnd
   | cons rds rest ih =>
@@ -293,7 +293,7 @@ theorem linesOK_zone (st : Style) (hl : Lossless st) (zo : Name) (rel gfix : Boo
     (hnd : ∀ p ∈ w, p.2 ≠ []) (hne : ∀ p ∈ w, ∀ rds ∈ p.2, rds.rrs ≠ [])
     (hrec : ∀ p ∈ w, ∀ rds ∈ p.2, ∀ x ∈ rds.rrs,
       RecOK st zo rel gfix (owOf p.1) (absOf p.1) p.1 rds.ttl rds.rdtype x (rtextOf x)) :
-    LinesOK zo rel gfix ln st.defaultTTL (zoneG st owOf absOf rtextOf w) := by
+    LinesOK zo zo rel gfix ln st.defaultTTL (zoneG st owOf absOf rtextOf w) := by
   induction w generalizing ln with
   | nil => simp [zoneG, LinesOK]
   | cons p rest ih =>
@@ -362,7 +362,7 @@ theorem zoneWF_shape (st : Style) (eff : Option Name) (w : ZoneMap) (h : ZoneWF 
 /-! ## reading the file -/
 
 theorem linesOK_b0 (zo : Name) (rel gfix : Bool) (ln : Option Name) (d : Option Nat) (ls : List GLine)
-    (h : LinesOK zo rel gfix ln d ls) : ∀ l ∈ ls, l.b0 ≠ [] := by
+    (h : LinesOK zo zo rel gfix ln d ls) : ∀ l ∈ ls, l.b0 ≠ [] := by
   induction ls generalizing ln with
   | nil => simp
   | cons l rest ih =>
@@ -381,11 +381,11 @@ theorem readLoop_lines (ls : List GLine) (r : PState) (zo : Name) (fuel : Nat) (
     (hco : r.currentOrigin = some zo) (hzo : r.zoneOrigin = some zo)
     (htok : r.tok = after 0 false (glinesText ls)) (d : Option Nat)
     (hd : ∀ d', d = some d' → r.defaultTTLKnown = true ∧ r.defaultTTL = d')
-    (hok : LinesOK zo r.relativize r.gfix r.lastName d ls) (z' : ZoneMap)
+    (hok : LinesOK zo zo r.relativize r.gfix r.lastName d ls) (z' : ZoneMap)
     (hadd : addAll r.effOrigin [] (ls.map GLine.entry) = .ok z') :
     ∃ rf, readLoop fuel r [] = .ok (rf, z') ∧ rf.zoneOrigin = some zo := by
   refine ⟨finalStateG ls r, ?_, ?_⟩
-  · rw [readLoop_eq_interp, parseTrace_G ls r zo fuel hf hco hzo htok d hd hok, interp_traceOfG, hadd]
+  · rw [readLoop_eq_interp, parseTrace_G ls r zo zo fuel hf hco hzo htok d hd hok, interp_traceOfG, hadd]
     rfl
   · rw [finalStateG_zoneOrigin, hzo]
 
@@ -421,7 +421,7 @@ theorem read_write_lossless_core (st' : Style) (w : ZoneMap) (zo : Name) (rel gf
   have htxt : zoneTextSpec st' zo w owOf rtextOf =
       (headerLines st' zo).flatMap (· ++ [10]) ++ glinesText (zoneG st' owOf absOf rtextOf w) := by
     unfold zoneTextSpec; rw [zoneG_text st' hl owOf absOf rtextOf w]
-  have hok : ∀ ln, LinesOK zo rel gfix ln st'.defaultTTL (zoneG st' owOf absOf rtextOf w) :=
+  have hok : ∀ ln, LinesOK zo zo rel gfix ln st'.defaultTTL (zoneG st' owOf absOf rtextOf w) :=
     fun ln => linesOK_zone st' hl zo rel gfix owOf absOf rtextOf w ln hnd hne hrec
   have hadd : addAll (if rel then some [] else some zo) [] ((zoneG st' owOf absOf rtextOf w).map GLine.entry) =
       .ok (keptZone st' w) := by
